@@ -1,6 +1,7 @@
 package main
 
 import (
+	"os"
 	"fmt"
 	"go/constant"
 	"go/types"
@@ -136,7 +137,15 @@ func (e *SpecEnv) sortOfVal(v SVal) string {
 }
 
 func goVal(t string, typ types.Type) SVal { return SVal{T: t, Typ: typ} }
-func ghostVal(t, sort string) SVal        { return SVal{T: t, Sort: sort} }
+func ghostVal(t, sort string) SVal {
+	if sort == "Slice" {
+		// a ghost value of sort Slice is read as a byte slice (len, bytesAt, le32, s[a:b] apply to it)
+		return SVal{T: t, Typ: tByteSlice}
+	}
+	return SVal{T: t, Sort: sort}
+}
+
+var tByteSlice = types.NewSlice(types.Typ[types.Uint8])
 
 var tInt = types.Typ[types.Int]
 var tBool = types.Typ[types.Bool]
@@ -824,6 +833,17 @@ func (e *SpecEnv) call(x *Expr) SVal {
 					return goVal(ne.evalBool(body), tBool)
 				}
 			}
+			if fn.Name == "forall" && srt == "Int" && body.Op == "imp" {
+				// forall(i, c1 <= i && i < c2 ==> B) with a small constant range is a finite conjunction
+				if lo, hi, ok := constRange(body.Args[0], name); ok && hi-lo <= 32 {
+					var parts []string
+					for k := lo; k < hi; k++ {
+						ne := e.bind(name, specVar{sv: tv(num(k)), typ: typ, sort: srt})
+						parts = append(parts, ne.evalBool(body.Args[1]))
+					}
+					return goVal(and(parts...), tBool)
+				}
+			}
 			bn := c.freshName("q_" + name)
 			ne := e.bind(name, specVar{sv: tv(qsym(bn)), typ: typ, sort: srt})
 			b := ne.evalBool(body)
@@ -835,6 +855,17 @@ func (e *SpecEnv) call(x *Expr) SVal {
 					b = implies(rng, b)
 				} else {
 					b = and(rng, b)
+				}
+			}
+			if srt == "Int" && fn.Name == "forall" && os.Getenv("GOVC_NOSHIFT") == "" {
+				jn := qsym(c.freshName("j_" + name))
+				if nb, pats, ok := shiftQuant(b, qsym(bn), jn); ok {
+					// one multi-pattern per read keeps every read a sufficient trigger
+					var ps []string
+					for _, p := range pats {
+						ps = append(ps, ":pattern ("+p+")")
+					}
+					return goVal(fmt.Sprintf("(%s ((%s Int)) (! %s %s))", fn.Name, jn, nb, strings.Join(ps, " ")), tBool)
 				}
 			}
 			return goVal(fmt.Sprintf("(%s ((%s %s)) %s)", fn.Name, qsym(bn), srt, b), tBool)
@@ -929,6 +960,14 @@ func (e *SpecEnv) call(x *Expr) SVal {
 				b.T = c.zero(a.Typ)
 			}
 			return goVal(eq(a.T, b.T), tBool)
+		case "content":
+			// content(s): the whole backing array of slice s (use unchanged(content(s)) for "no byte of it was written")
+			a := e.eval(args[0])
+			u, ok := a.Typ.Underlying().(*types.Slice)
+			if !ok {
+				e.fail("content needs a slice")
+			}
+			return ghostVal(sel(e.st.get(c.elemHeap(u.Elem())), "(s.ref "+a.T+")"), "(Array Int "+c.sortOf(u.Elem())+")")
 		case "unchanged":
 			a := e.eval(args[0])
 			b := e.withState(e.old).eval(args[0])
@@ -1116,10 +1155,14 @@ func contains(xs []string, s string) bool {
 func (e *SpecEnv) assignTarget(part string) ([]assignTarget, error) {
 	c := e.c
 	var out []assignTarget
-	star := false
+	star, toCap := false, false
 	if strings.HasSuffix(part, ".*") {
 		star = true
 		part = strings.TrimSuffix(part, ".*")
+	} else if strings.HasSuffix(part, "[*cap]") {
+		// s[*cap]: the elements of s and the spare capacity behind them (what an in-place append writes)
+		star, toCap = true, true
+		part = strings.TrimSuffix(part, "[*cap]")
 	} else if strings.HasSuffix(part, "[*]") {
 		star = true
 		part = strings.TrimSuffix(part, "[*]")
@@ -1145,7 +1188,7 @@ func (e *SpecEnv) assignTarget(part string) ([]assignTarget, error) {
 		if i < 0 {
 			return nil, fmt.Errorf("no field %s", ex.Name)
 		}
-		return []assignTarget{{c.fieldHeap(pt.Elem(), i), base.T}}, nil
+		return []assignTarget{{heap: c.fieldHeap(pt.Elem(), i), ref: base.T}}, nil
 	}
 	if ex.Op == "id" {
 		if sv, ok := e.vars[ex.Name]; ok && sv.sv.Dyn != nil && sv.sv.DynV != nil && sv.sv.DynV.T != "" {
@@ -1153,7 +1196,7 @@ func (e *SpecEnv) assignTarget(part string) ([]assignTarget, error) {
 			if pt, ok := sv.sv.Dyn.Underlying().(*types.Pointer); ok {
 				if s, ok := pt.Elem().Underlying().(*types.Struct); ok {
 					for i := 0; i < s.NumFields(); i++ {
-						out = append(out, assignTarget{c.fieldHeap(pt.Elem(), i), sv.sv.DynV.T})
+						out = append(out, assignTarget{heap: c.fieldHeap(pt.Elem(), i), ref: sv.sv.DynV.T})
 					}
 					return out, nil
 				}
@@ -1168,16 +1211,20 @@ func (e *SpecEnv) assignTarget(part string) ([]assignTarget, error) {
 	case *types.Pointer:
 		if s, ok := u.Elem().Underlying().(*types.Struct); ok {
 			for i := 0; i < s.NumFields(); i++ {
-				out = append(out, assignTarget{c.fieldHeap(u.Elem(), i), v.T})
+				out = append(out, assignTarget{heap: c.fieldHeap(u.Elem(), i), ref: v.T})
 			}
 		} else {
-			out = append(out, assignTarget{c.boxHeap(u.Elem()), v.T})
+			out = append(out, assignTarget{heap: c.boxHeap(u.Elem()), ref: v.T})
 		}
 	case *types.Slice:
-		out = append(out, assignTarget{c.elemHeap(u.Elem()), "(s.ref " + v.T + ")"})
+		ext := c.sLen(v.T)
+		if toCap {
+			ext = c.sCap(v.T)
+		}
+		out = append(out, assignTarget{heap: c.elemHeap(u.Elem()), ref: c.sRef(v.T), lo: c.sOff(v.T), hi: c.simplify("(+ " + c.sOff(v.T) + " " + ext + ")")})
 	case *types.Map:
 		has, val, ln := c.mapHeaps(u)
-		out = append(out, assignTarget{has, v.T}, assignTarget{val, v.T}, assignTarget{ln, v.T})
+		out = append(out, assignTarget{heap: has, ref: v.T}, assignTarget{heap: val, ref: v.T}, assignTarget{heap: ln, ref: v.T})
 	default:
 		return nil, fmt.Errorf("assigns %s: unsupported type %s", part, v.Typ)
 	}
@@ -1312,4 +1359,41 @@ func nilOfSort(s string) string {
 		return "(mk-iface 0 0)"
 	}
 	return "0"
+}
+
+// constRange recognises `c1 <= i && i < c2` (also `c1 < i`, `i <= c2`) for integer literals c1, c2 and
+// returns the half-open range [lo, hi) of i.
+func constRange(g *Expr, name string) (lo, hi int64, ok bool) {
+	if g.Op != "&&" || len(g.Args) != 2 {
+		return 0, 0, false
+	}
+	lit := func(x *Expr) (int64, bool) {
+		if x.Op != "int" {
+			return 0, false
+		}
+		n, err := strconv.ParseInt(x.Name, 0, 64)
+		return n, err == nil
+	}
+	isVar := func(x *Expr) bool { return x.Op == "id" && x.Name == name }
+	a, b := g.Args[0], g.Args[1]
+	if len(a.Args) != 2 || len(b.Args) != 2 {
+		return 0, 0, false
+	}
+	if n, k := lit(a.Args[0]); k && isVar(a.Args[1]) && (a.Op == "<=" || a.Op == "<") {
+		lo = n
+		if a.Op == "<" {
+			lo++
+		}
+	} else {
+		return 0, 0, false
+	}
+	if n, k := lit(b.Args[1]); k && isVar(b.Args[0]) && (b.Op == "<=" || b.Op == "<") {
+		hi = n
+		if b.Op == "<=" {
+			hi++
+		}
+	} else {
+		return 0, 0, false
+	}
+	return lo, hi, true
 }
